@@ -17,6 +17,7 @@ PRELUDE_TYPES = ["Option", "Eq", "Fn", "Clone", "Ordering", "Result", "Default",
                  "Sized", "Into", "From", "Formatter", "Self_", "Iterator", "Box"]
 PRELUDE_VARIANTS = ["Some", "None", "Ok", "Err", "Less", "Equal", "Greater", "Self_", "Break", "Continue"]
 PARAMS = ["H", "T", "Fn", "Eq", "K", "Output", "Rhs", "Target", "This"]
+METHOD_NAMES = ["clone", "clone_from", "eq", "ne", "cmp", "partial_cmp", "hash", "fmt", "default", "lt", "le", "deref", "into", "from", "add", "neg", "not", "max", "min"]
 RAW = ["r#type", "r#match", "r#fn", "r#loop", "r#where", "r#impl", "r#trait", "r#async", "r#dyn"]
 
 LOCAL_DEFS = ("#[allow(dead_code, non_camel_case_types)] pub struct Option; #[allow(dead_code)] pub struct Some; #[allow(dead_code)] pub struct None; "
@@ -79,6 +80,22 @@ def make_map(src, scheme, rnd, dictionary):
         for lt in lts:
             if lt in ("'l",):
                 m["'l"] = "'a"
+        # variants named like the trait methods the generated code calls (`Self::clone` must not be read as a variant)
+        for v in variants:
+            n = pick(METHOD_NAMES)
+            if n:
+                m[v] = n
+    elif scheme == "case_pairs":
+        # names that differ only in letter case must stay different names
+        pairs = [("dx", "dX"), ("hash", "Hash"), ("clone", "Clone"), ("t", "T"), ("eq", "EQ"), ("o", "O")]
+        rnd.shuffle(pairs)
+        for k in range(0, len(fields) - 1, 2):
+            a, b = pairs[(k // 2) % len(pairs)]
+            if a not in ids and b not in ids and a not in used and b not in used:
+                m[fields[k]], m[fields[k + 1]] = a, b
+                used.update((a, b))
+        for k in range(0, len(variants) - 1, 2):
+            m[variants[k]], m[variants[k + 1]] = "Ab", "AB"
     elif scheme == "prelude":
         for t in types:
             n = pick(PRELUDE_TYPES)
@@ -152,13 +169,86 @@ class Proxy:
         self.ck.violation(s, dict(payload, original_signature=sig))
 
 
+TYPE_NAMES = ["o", "this", "other", "state", "f", "rhs", "source", "lhs", "to_index", "hash", "eq", "cmp", "partial_cmp", "value", "result", "fmt",
+              "_f", "_eq", "_this", "_other", "clone", "default", "deref", "index", "item", "target", "e", "s", "x", "v", "a", "b"]
+# (closure parameters are the USER's names: chosen outside the name list)
+BY = {"partial_eq": "|qa: &i8, qb: &i8| qa == qb", "eq": "|qa: &i8, qb: &i8| qa == qb", "partial_ord": "|qa: &i8, qb: &i8| qa.partial_cmp(qb)",
+      "ord": "|qa: &i8, qb: &i8| qa.cmp(qb)", "hash": "|qa: &i8, qs| ::core::hash::Hash::hash(qa, qs)"}
+# (trait list, helper attributes of the first field)
+TYPE_CFGS = [("Clone, Debug, Default", ""), ("Copy, Clone", ""), ("Add, SubAssign, Neg, Not", ""), ("Deref, DerefMut", None),
+             ("PartialEq", "#[partial_eq(by = %(partial_eq)s)]"), ("PartialEq", "#[eq(by = %(eq)s)]"), ("PartialEq", "#[partial_ord(by = %(partial_ord)s)]"),
+             ("PartialEq", "#[ord(by = %(ord)s)]"), ("PartialOrd, PartialEq", "#[partial_ord(by = %(partial_ord)s)]"), ("PartialOrd, PartialEq", "#[ord(by = %(ord)s)]"),
+             ("Ord, PartialOrd, Eq, PartialEq", "#[ord(by = %(ord)s)]"), ("Hash", "#[hash(by = %(hash)s)]"), ("Eq, PartialEq, Hash", "#[eq(key = $.abs())]"),
+             ("Ord, PartialOrd, Eq, PartialEq, Hash", "#[ord(reverse)]"), ("Ord, PartialOrd, Eq, PartialEq, Hash", "")]
+
+
+def type_name_grid(ck, tier, auto):
+    """the TYPE (tuple struct: its constructor lives in the value namespace, where binding patterns are resolved; unit struct; operand
+    types of a user impl) named like an identifier the generator uses or could use for its own locals, parameters and helper functions"""
+    names = list(TYPE_NAMES) + [x for x in auto if re.fullmatch(r"_?[a-z][a-z0-9_]*", x) and x not in TYPE_NAMES and x not in PRIMS]
+    progs, meta = [], []
+    for nm in names:
+        for shape in ("tuple", "unit", "impl"):
+            mods = []
+            if shape == "impl":
+                other = "Zq"
+                for k, (base, req) in enumerate([("Add<%s> for %s" % (nm, other), "Add, AddAssign"), ("Sub<&%s> for &%s" % (other, nm), "Sub"), ("Mul<%s> for %s" % (nm, nm), "MulAssign")]):
+                    rt, lt = base.split(" for ")
+                    rty = rt[rt.index("<") + 1:-1]
+                    mods.append("pub mod m%d { #[derive(Clone)] pub struct %s(pub i8); #[derive(Clone)] pub struct %s(pub i8);\n"
+                                "#[::derive_ex::derive_ex(%s)] impl ::core::ops::%s { type Output = %s; fn %s(self, qr: %s) -> %s { let _ = &qr; %s(self.0) } } }"
+                                % (k, nm, other if other != nm else "unused_", req, base, lt.lstrip("&"), base.split("<")[0].lower(), rty, lt.lstrip("&"), lt.lstrip("&")))
+            else:
+                for k, (tr, attr) in enumerate(TYPE_CFGS):
+                    if shape == "unit":
+                        if attr or attr is None or tr.startswith("Add"):
+                            continue
+                        body = "pub struct %s;" % nm
+                    elif attr is None:
+                        body = "pub struct %s(pub i8);" % nm
+                    else:
+                        body = "pub struct %s(%s pub i8, pub i8);" % (nm, attr % BY)
+                    mods.append("pub mod m%d { #[::derive_ex::derive_ex(%s)] %s }" % (k, tr, body))
+            progs.append("#![allow(dead_code, non_camel_case_types)]\n" + "\n".join(mods))
+            meta.append({"name": nm, "shape": shape, "mods": mods})
+    wd = os.path.join(dx.WORK, "c13tn-%d" % os.getpid())
+
+    def comp(ix):
+        i, src = ix
+        ok, diags = dx.check_only("t%d" % i, src, wd)
+        return ok, dx.diag_summary(diags)[:3]
+    res = dx.pmap(comp, list(enumerate(progs)))
+    events = [{"ev": "compiles", "rustc_ok": ok} for ok, _ in res]
+    n, bad, jst = dx.tlc_judge("Trace_Bounds", "Trace_Bounds.cfg", events, "c13tn")
+    ck.add_judge(n, jst)
+    for i in bad:
+        m = meta[i]
+        # attribute the failure to the smallest failing module
+        culprit = None
+        for k, mod in enumerate(m["mods"]):
+            ok, diags = dx.check_only("t%d_%d" % (i, k), "#![allow(dead_code, non_camel_case_types)]\n" + mod, wd)
+            if not ok:
+                culprit = {"module": mod, "diagnostics": dx.diag_summary(diags)[:3]}
+                break
+        first = (culprit or {}).get("module", "")
+        trait = first[first.index("derive_ex(") + 10:first.index(")]")] if "derive_ex(" in first else "?"
+        ck.violation({"family": "type_name", "scheme": "locals", "name": m["name"], "shape": m["shape"], "trait": trait.replace(" ", "")},
+                     {"what": "a type with this name collides with a name the generated code introduces", "first_failing_module": culprit, "diagnostics": res[i][1]})
+    import shutil
+    shutil.rmtree(wd, ignore_errors=True)
+    ck.notes["type_name_grid"] = {"programs": len(progs), "names": len(names), "failing": len(bad)}
+
+
+PRIMS = set("bool char str u8 u16 u32 u64 u128 usize i8 i16 i32 i64 i128 isize f32 f64 core std alloc crate".split())
+
+
 def c13(tier):
     ck = dx.Check("C13", tier)
     rnd = random.Random(dx.seed())
     auto = introduced_identifiers()
     dictionary = {"locals": sorted(set(STATIC_LOCALS + [x for x in auto if re.fullmatch(r"[a-z_][a-z0-9_]*", x)]))}
     ck.notes["auto_collected_identifiers"] = auto
-    schemes = ["locals", "prelude", "raw", "types_as_locals", "shadow_glob", "shadow_local"]
+    schemes = ["locals", "prelude", "raw", "types_as_locals", "case_pairs", "shadow_glob", "shadow_local"]
     maps_used = []
 
     def transform_for(scheme):
@@ -194,6 +284,7 @@ def c13(tier):
     # no_std: metadata-only build of core-only programs
     no_std_programs(ck, tier, rnd)
     const_param_grid(ck, tier)
+    type_name_grid(ck, tier, auto)
     ck.cov["evaluations"] = ck.cov["traces_validated_against_impl"]
     ck.cov["distinct_nontrivial"] = len(ck.notes.get("events_per_family", {}))
     ck.cov["rule"] = ("every run-time family (clone, struct operators, impl operators, debug, default, deref, comparison sample) re-run under 4 renaming schemes "
